@@ -64,10 +64,11 @@ Definition prepend {A} (l : list event) (r : result A) : result A :=
                time.sleep(0.5); continue
            break
        return reservation
-   [seen] = the value the local in_progress holds from an earlier iteration (None =
-   unbound): a CompletionCodeError(0) passes check_completion_code and falls through to
-   the test of in_progress (UnboundLocalError when unbound). *)
-Fixpoint clear_iter (n : nat) (ctrl resv : N) (seen : option N) (os : list outcome)
+   [seen] = the local in_progress is bound by an earlier iteration; its value is then
+   REPOSITORY_ERASURE_IN_PROGRESS, because any other value leaves the loop.  It matters
+   only for a CompletionCodeError(0): that passes check_completion_code and falls through
+   to the test of in_progress (UnboundLocalError when unbound). *)
+Fixpoint clear_iter (n : nat) (ctrl resv : N) (seen : bool) (os : list outcome)
   : result N :=
   match n with
   | O => ([], Err RetryError, os)              (* retry - 1 <= 0 *)
@@ -76,12 +77,11 @@ Fixpoint clear_iter (n : nat) (ctrl resv : N) (seen : option N) (os : list outco
     | [] => ([], Err OutOfFuel, [])
     | o :: os1 =>
       let ev := ECall (CClear ctrl resv) o in
-      let on_val (v : N) : result N :=
-        if v =? ERASURE_IN_PROGRESS
-        then prepend [ev; ESleep 500] (clear_iter n' ctrl resv (Some v) os1)
-        else ([ev], Ok resv, os1) in
       match o with
-      | OVal v => on_val v
+      | OVal v =>
+        if v =? ERASURE_IN_PROGRESS
+        then prepend [ev; ESleep 500] (clear_iter n' ctrl resv true os1)
+        else ([ev], Ok resv, os1)
       | OCc cc =>
         if cc =? CC_RES_CANCELED then
           match os1 with
@@ -93,10 +93,8 @@ Fixpoint clear_iter (n : nat) (ctrl resv : N) (seen : option N) (os : list outco
             end
           end
         else if cc =? 0 then
-          match seen with
-          | None => ([ev], Err (OtherError OtherExc), os1)
-          | Some v => on_val v
-          end
+          if seen then prepend [ev; ESleep 500] (clear_iter n' ctrl resv true os1)
+          else ([ev], Err (OtherError OtherExc), os1)
         else ([ev], Err (CCError cc), os1)
       | OExc e => ([ev], Err e, os1)
       end
@@ -116,9 +114,9 @@ Definition budget (z : Z) : nat := Z.to_nat z.
        time.sleep(0.5)
        reservation = _clear_repository(reserve_fn, clear_fn, GET_ERASE_STATUS, retry, reservation) *)
 Definition clear_phases (retry : nat) (resv : N) (os : list outcome) : result unit :=
-  match clear_loop retry INITIATE_ERASE resv None os with
+  match clear_loop retry INITIATE_ERASE resv false os with
   | (t1, Ok r1, os1) =>
-      match clear_loop retry GET_ERASE_STATUS r1 None os1 with
+      match clear_loop retry GET_ERASE_STATUS r1 false os1 with
       | (t2, Ok _, os2) => (t1 ++ ESleep 500 :: t2, Ok tt, os2)
       | (t2, Err e, os2) => (t1 ++ ESleep 500 :: t2, Err e, os2)
       end
